@@ -199,7 +199,8 @@ def coq_eval(pid, name, header, defs, timeout=1500):
         f.write(header + '\n')
         for rn, term in defs:
             f.write('Definition %s := Eval vm_compute in (%s).\nPrint %s.\n' % (rn, term, rn))
-    p = sh(['timeout', str(timeout), 'coqc', '-Q', COQ, 'WM', '-o', path + 'o', path], check=False)
+    # large printed values (the C03 sweep prints ~90 000 numbers) need more than the default 8 MB stack
+    p = sh('ulimit -s unlimited 2>/dev/null || ulimit -s 4000000 2>/dev/null; exec timeout %d coqc -Q "%s" WM -o "%so" "%s"' % (timeout, COQ, path, path), check=False)
     if p.returncode != 0:
         raise CheckError('coqc failed on %s:\n%s' % (path, p.stdout[-3000:]))
     res = {}
